@@ -772,6 +772,15 @@ def dead_nested_kinds(ast):
     return out
 
 
+def redeclared_locals(ast):
+    """names declared more than once anywhere in the behaviour -> {name: set of declared types}"""
+    out = {}
+    for n in subterms(ast):
+        if isinstance(n, tuple) and n and n[0] == 'decl':
+            out.setdefault(n[2], []).append(n[1])
+    return {k: v for k, v in out.items() if len(v) > 1}
+
+
 def valueless_statements(ast):
     """expression statements whose value is dropped and whose root has no effect (`RsV + 1;`): -> (operand names, Counter of kinds)"""
     import collections
